@@ -66,6 +66,23 @@ pub fn run(toks: &[&str], out: &mut String) {
                 genotype::Result::Error(_) => "ploidy".to_string(),
             });
         }
+        // smapfile HEX : the samples-file parser + sample map construction
+        "smapfile" => {
+            let bytes = crate::bytesio::unhex(toks[1]);
+            match sfs_core::input::sample::Map::from_reader(&bytes[..]) {
+                Ok(map) => {
+                    let items: Vec<String> = map
+                        .samples()
+                        .map(|s| {
+                            let id = map.get_population_id(s).map(|p| p.0.to_string()).unwrap_or_else(|| "?".to_string());
+                            format!("{}:{}", crate::bytesio::hex(s.as_ref().as_bytes()), id)
+                        })
+                        .collect();
+                    out.push_str(&format!("OK {}", if items.is_empty() { "-".to_string() } else { items.join(",") }));
+                }
+                Err(_) => out.push_str("ERR"),
+            }
+        }
         // sites COLS SAMPLES PROJ RECS
         "sites" => {
             let cols: Vec<Sample> = split_list(toks[1]).into_iter().map(Sample::from).collect();
